@@ -24,6 +24,17 @@ def deepcopy(eng, st, v):
     return v
 
 
+def shallowcopy(eng, st, v):
+    """copy.copy / dict.copy / list.copy: a new outer container whose items are the SAME objects as the original's"""
+    if isinstance(v, Opt):
+        return Opt(v.none, shallowcopy(eng, st, v.val))
+    if isinstance(v, Ref):
+        stor = st.get(v)
+        if stor.get("__kind__") in ("dict", "list", "set", "glist"):
+            return st.alloc(v.cls, dict(stor))
+    return v
+
+
 def snapshot(st, v):
     """deep snapshot of a dict/list structure (storages are immutable values: copy-on-write heap)"""
     if isinstance(v, Opt):
@@ -96,6 +107,8 @@ class CodecHooks(Hooks):
     def ext_call(self, eng, st, name, args, kwargs):
         if name == "copy.deepcopy":
             return [("val", deepcopy(eng, st, args[0]), st)]
+        if name == "copy.copy":
+            return [("val", shallowcopy(eng, st, args[0]), st)]
         if name in ("datetime.datetime.fromtimestamp", "datetime.fromtimestamp"):
             d = fresh("dt", "fromts")
             st.assume(dt_ts(d.t) == ops.zreal(args[0]))
@@ -146,3 +159,60 @@ def handler_preamble(chk, ex, funcs):
     from .hreplay import attach_replay, crosscheck
     attach_replay(ex)
     crosscheck(chk, ex)
+
+
+# ------------------------------------------------------------------------------------------------ per-instance state (no sharing through the class)
+def _immutable_class_value(P, mod, v):
+    import ast
+    if isinstance(v, ast.Constant):
+        return True
+    if isinstance(v, ast.Tuple):
+        return all(_immutable_class_value(P, mod, e) for e in v.elts)
+    if isinstance(v, ast.UnaryOp):
+        return _immutable_class_value(P, mod, v.operand)
+    if isinstance(v, ast.BinOp):
+        return _immutable_class_value(P, mod, v.left) and _immutable_class_value(P, mod, v.right)
+    if isinstance(v, ast.Attribute) and isinstance(v.value, ast.Name):
+        r = P.resolve_name(mod, v.value.id)
+        return bool(r and r[0] == "class" and r[1].is_enum)          # an enum member
+    if isinstance(v, ast.Name):
+        r = P.resolve_name(mod, v.id)
+        return bool(r and r[0] == "const" and _immutable_class_value(P, r[2], r[1]))
+    if isinstance(v, ast.Call) and isinstance(v.func, ast.Name) and v.func.id == "field":
+        # dataclasses.field: default_factory builds a new object per instance; default= is shared like a plain class value
+        return all(kw.arg != "default" or _immutable_class_value(P, mod, kw.value) for kw in v.keywords) and not v.args
+    return False
+
+
+def per_instance_state(chk, name, class_keys, program=None):
+    """Sufficient condition (syntactic, over the AST of the current source; no solver) for: two instances of the class share no mutable
+    state through the class.  Every value assigned in the class body is immutable - a constant, an enum member, a tuple / arithmetic of
+    those, or dataclasses.field with a default_factory (a new object per instance).  A class-level `threading.Event()`, list, dict, set
+    or other object would be ONE object read through every instance that does not rebind the attribute in __init__.  Enum classes are exempt
+    (their members are singletons by construction)."""
+    import z3
+    from pyvc.engine import Engine
+    P = program or Engine().program
+    bad, n = [], 0
+    for key in class_keys:
+        c = P.cls(key)
+        chk.function(f"{key} (class body)", "per-instance state: syntactic check of every class-level assignment (AST, no solver)")
+        if c.is_enum:
+            continue
+        for attr, v in c.class_attrs.items():
+            n += 1
+            if not _immutable_class_value(P, c.module, v):
+                import ast
+                bad.append(f"{key}.{attr} = {ast.unparse(v)[:50]}")
+    chk.prove(name, [], z3.BoolVal(not bad),
+              desc=f"no mutable object is created in a class body: the state each method reads and writes through self belongs to that instance alone "
+                   f"({n} class-level assignments of {len(class_keys)} classes checked)" + (f"; shared by all instances: {bad}" if bad else ""),
+              describe=lambda m: {"shared_class_level_objects": bad}, sample=f"class bodies of {', '.join(k.rsplit('.', 1)[1] for k in class_keys)}")
+
+
+def per_instance_state_of_modules(chk, name, modules):
+    """per_instance_state over every class of the given modules of the current tree (classes added later are covered without editing the check)"""
+    from pyvc.engine import Engine
+    P = Engine().program
+    keys = [f"{m}.{c}" for m in modules if m in P.modules for c in P.modules[m].classes]
+    per_instance_state(chk, name, keys, program=P)
